@@ -280,10 +280,17 @@ func checkPolicy(t *core.T, sig string, mk func() *xast.Policy, desc func() stri
 		t.Fail("ast.Policy.UnmarshalJSON-into-used-receiver:"+sig, in(), want, fmt.Sprintf("%v %s", err, Canon((*xast.Policy)(dirtyAST))))
 	}
 	dirty := cedar.NewPolicyFromAST(dirtyPolicy())
+	// ... and every accessor of it has been called, so whatever they cache is populated
+	_ = authz(dirty)
+	_, _ = dirty.MarshalJSON()
+	_ = dirty.MarshalCedar()
+	_ = dirty.AST()
 	if err := dirty.UnmarshalJSON(js); err != nil || Canon((*xast.Policy)(dirty.AST())) != want {
 		t.Fail("Policy.UnmarshalJSON-into-used-receiver:"+sig, in(), want, fmt.Sprintf("%v %s", err, Canon((*xast.Policy)(dirty.AST()))))
 	} else if a := authz(dirty); a != authz(orig) {
 		t.Fail("Policy.UnmarshalJSON-into-used-receiver:"+sig, in(), authz(orig), a)
+	} else if j3, err := dirty.MarshalJSON(); err != nil || !bytes.Equal(j3, js) {
+		t.Fail("Policy.UnmarshalJSON-into-used-receiver-encodes-differently:"+sig, in(), string(js), string(j3)+fmt.Sprint(err))
 	}
 	a0 := authz(orig)
 	if a1 := authz(&back); a1 != a0 {
